@@ -13,6 +13,11 @@ def plainAttr : AttrVal → Bool
   | .bool _ _ => true
   | _ => false
 
+/-- only `Attr<K, String | Option<String> | bool>` items -/
+def PlainAttrs (as : List AttrVal) : Prop := as.all plainAttr = true
+
+instance (as : List AttrVal) : Decidable (PlainAttrs as) := by unfold PlainAttrs; infer_instance
+
 mutual
 def plainV : View → Bool
   | .elem _ as c => as.all plainAttr && plainV c
